@@ -99,7 +99,7 @@ Section Run.
      contiguous partition), and once non-empty they stay non-empty *)
   Definition cert_ok (seen : bool) (s : st float) : bool :=
     match approximating_intervals PrimFloat.zero s with
-    | Some (k :: S) => partition_cert PrimFloat.zero s (k :: S)
+    | Some (k :: Sl) => partition_cert PrimFloat.zero s (k :: Sl)
     | Some [] => negb seen
     | None => false
     end.
